@@ -13,7 +13,6 @@ import (
 	"database/sql"
 	"errors"
 	"fmt"
-	"os"
 	"strings"
 	"sync/atomic"
 	"time"
@@ -736,14 +735,11 @@ func run(c *core.Ctx) {
 		sig := "cancelled/" + name
 		// (bound.Connection itself must refuse an already-cancelled context: only a block opened by the outer handle
 		// can get as far as a statement on the connection)
-		if len(ran) > 0 && allOnConn && connPos == 2 && !debugSkipClass {
+		if len(ran) > 0 && allOnConn && connPos == 2 {
 			sig = sigOnConn
 		}
 		if connPos == 1 && blockRan {
 			p = append(p, "bound.Connection entered its block although the bound context had already ended")
-		}
-		if debugSkipClass && sig == "cancelled/"+name && len(ran) > 0 && allOnConn && connPos == 2 {
-			return
 		}
 		c.Violation(sig, map[string]interface{}{"op": desc, "problems": p})
 	}
@@ -854,9 +850,6 @@ func cancelMidway(c *core.Ctx, h *vdb.Handle, parent context.Context, opID strin
 		sig := "cancelled-midway/" + name
 		if len(ran) > 0 && allOnConn {
 			sig = sigOnConn
-			if debugSkipClass {
-				return
-			}
 		}
 		c.Violation(sig, map[string]interface{}{"op": desc, "cancelled_during_call": k, "problems": p})
 	}
@@ -866,8 +859,6 @@ func cancelMidway(c *core.Ctx, h *vdb.Handle, parent context.Context, opID strin
 // from a handle whose context has ALREADY ended is handed to the driver - with that ended context - directly on the
 // checked-out *sql.Conn, outside any transaction (sql.Conn does not look at the context before calling the driver,
 // sql.DB and sql.Tx do, and gorm does not look either)
-var debugSkipClass = os.Getenv("C18_DEBUG_SKIP_CLASS") != ""
-
 const sigOnConn = "ended-context-statement-on-checked-out-connection"
 
 func onCheckedOutConn(connPos int, opID string, e recdrv.Event) bool {
@@ -904,14 +895,15 @@ func short(s string) string {
 var Engine = &core.Engine{
 	ID:    "C18",
 	Level: "exploration",
-	Rule: "operations = the 19 write kinds of C05 over seeded association graphs (hooks write through tx; Delete/Updates with RETURNING among them) + 36 read / association-mode / raw / savepoint / failing-nested-block kinds (nested and conditional Preload, clause.Associations, Joins, Joins with nested Preload, FindInBatches with a statement in the callback, FindInBatches with Where/Or/Limit/Offset and a write through the batch handle, Rows+ScanRows, Row, Scan, Pluck, Count, First/Last/Take, Find into maps, a chain whose own scopes add a condition and hand back a new session, FirstOrCreate/Init, Association Append/Replace/Delete/Clear/Count/Find on has-many and many-to-many, Raw, Exec, SavePoint/RollbackTo/nested Transaction, soft delete with and without RETURNING, OnConflict upsert) x {PrepareStmt off, on by config, on by Session{PrepareStmt} before or after binding the context, Session{SkipDefaultTransaction}} x nesting in 0..2 Transaction blocks (outermost one in three by Begin/Commit/Rollback) x {WithContext, Session{Context}, Session{Context, NewDB}} x where the context is bound {on the root handle before everything (half of the cases); on the tx of the 1st..nest-th Transaction block, the blocks above it opened from an outer handle that is unbound or bound to another live context; by a scope of the chain handed to the operation that hands back d.WithContext(ctx) or d.Session(&Session{Context: ctx}), receiver unbound or bound to another live context} x caller's context {value, value+far deadline, value+cancellable} x bound handle {session, chain value: Set / Scopes / Where / InstanceSet called on it, used for the one chain of the operation} x {nothing, one of five sibling sessions with another context (alive, cancelled, expired) derived from the bound handle / chain value and used (Raw or Count) first}; " +
-		"each run: (1) live context: every begin/prepare/exec/query/prepared-exec event made on behalf of the bound handle (from the binding to the end of the block it happened in) and every hook shows the operation id, no call's context had ended, no context error comes back; the calls of the blocks above the binding (BEGIN, SAVEPOINT, ROLLBACK TO) show the outer handle's context; the context object of every call has the caller's deadline, and once the caller's context is cancelled after the operation the context of every call it made reports an error; (2) already cancelled / expired context: no driver statement, error returned; (2b, one in three) that handle bound again to context.Background() (for a scope binding: by one more scope): nothing of the old context reaches a call; (3) context cancelled during the k-th call made under it (3 positions, thorough: all): no later call on behalf of the bound handle; distinct = (operation, PrepareStmt, nesting, entry, event kinds, size class, chain value, manual transaction, session option, binding form, binding depth, outer handle); non-trivial = at least 2 context-carrying driver events",
+	Rule: "operations = the 19 write kinds of C05 over seeded association graphs (hooks write through tx; Delete/Updates with RETURNING among them) + 40 read / association-mode / raw / savepoint / failing-nested-block / migrator / transaction-with-options kinds (Migrator HasTable/HasColumn/HasIndex, Migrator ColumnTypes/GetTables, Transaction(fc, &sql.TxOptions{}), Begin(&sql.TxOptions{})/Commit, nested and conditional Preload, clause.Associations, Joins, Joins with nested Preload, FindInBatches with a statement in the callback, FindInBatches with Where/Or/Limit/Offset and a write through the batch handle, Rows+ScanRows, Row, Scan, Pluck, Count, First/Last/Take, Find into maps, a chain whose own scopes add a condition and hand back a new session, FirstOrCreate/Init, Association Append/Replace/Delete/Clear/Count/Find on has-many and many-to-many, Raw, Exec, SavePoint/RollbackTo/nested Transaction, soft delete with and without RETURNING, OnConflict upsert) x {PrepareStmt off, on by config, on by Session{PrepareStmt} before or after binding the context, Session{SkipDefaultTransaction}} x nesting in 0..2 Transaction blocks (outermost one in three by Begin/Commit/Rollback) x {WithContext, Session{Context}, Session{Context, NewDB}} x where the context is bound {on the root handle before everything (half of the cases); on the tx of the 1st..nest-th Transaction block, the blocks above it opened from an outer handle that is unbound or bound to another live context; by a scope of the chain handed to the operation that hands back d.WithContext(ctx) or d.Session(&Session{Context: ctx}), receiver unbound or bound to another live context} x db.Connection block {none (two in three); opened by the bound handle (bound.Connection: only for a binding on the root handle, not by a scope) so that the operation and the blocks below run through the block's handle; opened by the outer handle with the context bound inside it} x the block sends {nothing more, an Exec of its own first, a Raw of its own last - outside any transaction, error ignored} x caller's context {value, value+far deadline, value+cancellable} x bound handle {session, chain value: Set / Scopes / Where / InstanceSet called on it, used for the one chain of the operation} x {nothing, one of five sibling sessions with another context (alive, cancelled, expired) derived from the bound handle / chain value and used (Raw or Count) first}; " +
+		"each run: (1) live context: every begin/prepare/exec/query/prepared-exec event made on behalf of the bound handle (from the binding to the end of the block it happened in) and every hook shows the operation id, no call's context had ended, no context error comes back; the calls of the blocks above the binding (BEGIN, SAVEPOINT, ROLLBACK TO) show the outer handle's context; the context object of every call has the caller's deadline, and once the caller's context is cancelled after the operation the context of every call it made reports an error; (2) already cancelled / expired context: no driver statement, error returned, a Connection block of the bound handle is not entered; (2b, one in three) that handle bound again to context.Background() (for a scope binding: by one more scope): nothing of the old context reaches a call; (3) context cancelled during the k-th call made under it (3 positions, thorough: all): no later call on behalf of the bound handle; distinct = (operation, PrepareStmt, nesting, entry, event kinds, size class, chain value, manual transaction, session option, binding form, binding depth, outer handle, connection block and its position); a statement or BEGIN that reaches the driver with the operation's ENDED context inside a Connection block (possible only directly on the checked-out *sql.Conn) is the class of its own ended-context-statement-on-checked-out-connection - except when bound.Connection was called with the context already ended, which must fail before the block (cancelled/<op>); non-trivial = at least 2 context-carrying driver events",
 	Assumptions: []string{
 		"COMMIT/ROLLBACK carry no context in database/sql's driver interface and are not checked",
 		"SQLite behind the recording driver; prepared-statement preparation is observed as a prepare event with its context",
 		"a chain value (clone==0 result of a chain method) is used for exactly one chain; operations that start two chains from their handle (Rows+ScanRows, TxError) get a chain value only inside a Transaction block (whose tx is a session)",
 		"'receives that context' is checked by what the driver can observe of it: the identifying value, the deadline (equal to the caller's) and, for cancellable callers, that cancelling the caller's context ends it; for a plain value context (never ends) only value and absence of a deadline are demanded; object identity is not demanded",
-		"db.Connection blocks and DryRun sessions are not part of the quantifier (C14 / C19) and are not generated",
+		"DryRun sessions are not generated (no driver call: C19). db.Connection blocks are opened only from a handle that is not inside a transaction (inside one Connection checks out a second connection) and never on a chain that carries the binding scope (Connection does not run scopes)",
+		"the migrator is used for look-ups only (HasTable / HasColumn / HasIndex / ColumnTypes / GetTables), from a reusable handle; schema changes are C20's",
 		"a context bound by a scope takes effect when the scopes run: it is generated only for operations whose every driver call comes after that (finishers that go through the callback processors, FindInBatches, FirstOrCreate/Init, Save). Not generated, because the statement does not say which context applies before the scopes have run: Transaction / Begin / SavePoint called on a chain that carries the scope (they do not run scopes), CreateInBatches (several batches open a block of their own first), association mode (it never runs scopes as a step of its own), operations that start two chains from their handle",
 		"inside a Transaction block the context is bound on the block's tx (tx.WithContext / tx.Session{Context}); the blocks above run under the outer handle's context, which stays alive, so a cancelled operation context never ends the enclosing transaction by itself",
 	},
